@@ -34,17 +34,103 @@ fn first_diff(a: &[u8], b: &[u8]) -> String {
     format!("first differing line {}:\n  run 1: {}\n  run k: {}", i + 1, sa.lines().nth(i).unwrap_or("<end>"), sb.lines().nth(i).unwrap_or("<end>"))
 }
 
+/// What one in-process run of compile (+ decompile of the result) produced; every field must be a function of the inputs.
+#[derive(PartialEq, Eq, Clone, Debug)]
+struct InProc { compile_stage: String, compile_diags: String, bytes: Option<Vec<u8>>, debug_info: Option<String>, decompiled: Vec<(String, String, String)> }
+
+/// Runs on a FRESH thread: std's `RandomState` draws its keys per thread from the OS, so every call sees hash maps
+/// seeded differently, exactly like a fresh process does.  Returns Err on a panic (C04's / C16's subject).
+fn run_in_fresh_thread(fmt: Fmt, game: String, text: Vec<u8>, maps: Vec<Vec<u8>>, tag: usize) -> Result<(InProc, Vec<u64>), String> {
+    let h = std::thread::Builder::new().stack_size(8 << 20).spawn(move || {
+        // fingerprint of this thread's hash seeds: iteration order of a std HashSet
+        let hs: std::collections::HashSet<u64> = (0..48u64).collect();
+        let order: Vec<u64> = hs.iter().copied().collect();
+        let g = crate::files::game_from_str(&game);
+        let dir = std::path::PathBuf::from({ let _ = tag; format!("/dev/shm/tv-c19t-{}", std::process::id()) });
+        if !maps.is_empty() { let _ = std::fs::create_dir_all(&dir); }
+        let mut paths = vec![];
+        for (i, m) in maps.iter().enumerate() { let p = dir.join(format!("map{}.txt", i)); let _ = std::fs::write(&p, m); paths.push(p); }
+        let r = catch(|| {
+            let (stage, diags, compiled) = crate::tx::with_truth(|truth| {
+                let r = crate::files::compile_file_ex(truth, fmt, g, &text, &[], &paths, vec![]);
+                let d = crate::tx::diags(truth);
+                match r { Ok(c) => ("ok".to_string(), d, Some((c.bytes, c.debug_info_text))), Err(s) => (format!("{:?}", s), d, None) }
+            });
+            let mut dec = vec![];
+            if let Some((bytes, _)) = &compiled {
+                let map_texts: Vec<String> = maps.iter().map(|m| String::from_utf8_lossy(m).into_owned()).collect();
+                for (oname, opts) in [("default", truth::DecompileOptions::new()), ("no-blocks-no-intrinsics", { let mut o = truth::DecompileOptions::new(); o.blocks = false; o.intrinsics = false; o })] {
+                    let (res, d) = crate::tx::with_truth(|truth| {
+                        let r = crate::files::decompile_file(truth, fmt, g, bytes, &opts, &map_texts);
+                        let out = match r { Ok(ast) => crate::tx::format_at(&ast, 100).unwrap_or_else(|e| format!("<format error: {}>", e)), Err(s) => format!("<{:?}>", s) };
+                        (out, crate::tx::diags(truth))
+                    });
+                    dec.push((oname.to_string(), res, d));
+                }
+            }
+            InProc { compile_stage: stage, compile_diags: diags, bytes: compiled.as_ref().map(|c| c.0.clone()), debug_info: compiled.map(|c| c.1), decompiled: dec }
+        });
+        if !maps.is_empty() { let _ = std::fs::remove_dir_all(&dir); }
+        r.map(|x| (x, order)).map_err(|p| p.signature())
+    });
+    match h { Ok(h) => h.join().unwrap_or_else(|_| Err("thread panicked outside catch".into())), Err(e) => Err(format!("spawn failed: {}", e)) }
+}
+
+fn check_threads(case: &Value, ctx: &mut CheckCtx) -> Outcome {
+    let Some((fmt, game, text, maps)) = materialize(case) else { return Outcome::Discard("case cannot be materialised".into()) };
+    ctx.label(format!("fmt:{}", fmt.name())); ctx.label("mode:threads");
+    if !maps.is_empty() { ctx.label("mapfile"); }
+    const RUNS: usize = 4;
+    let mut first: Option<(InProc, Vec<u64>)> = None;
+    for k in 0..RUNS {
+        let r = match run_in_fresh_thread(fmt, game.clone(), text.clone(), maps.clone(), k) { Ok(r) => r, Err(sig) => return Outcome::Discard(format!("panic (C04's subject): {}", sig.chars().take(60).collect::<String>())) };
+        let Some((f, forder)) = &first else {
+            let ndiag = r.0.compile_diags.lines().filter(|l| l.starts_with("error") || l.starts_with("warning")).count() + r.0.decompiled.iter().map(|d| d.2.lines().filter(|l| l.starts_with("error") || l.starts_with("warning")).count()).sum::<usize>();
+            if ndiag >= 1 || r.0.bytes.is_some() { ctx.nontrivial(); }
+            if ndiag >= 2 { ctx.label("diagnostics:>=2"); }
+            ctx.label(if r.0.bytes.is_some() { "compile:ok" } else { "compile:failed" });
+            if r.0.debug_info.is_some() { ctx.label("debug-info-compared"); }
+            if !r.0.decompiled.is_empty() { ctx.label("decompile-compared"); }
+            first = Some(r); continue;
+        };
+        if *forder != r.1 { ctx.label("threads:hash-seeds-differ"); }
+        if *f == r.0 { continue; }
+        let fail = |what: &str, detail: String| Outcome::Fail(Failure::new(format!("c19:threads:{}:{}", what, fmt.name()), format!("game {}: the same in-process command run on two fresh threads (fresh hash seeds) gave different results: {}\n--- input:\n{}\n--- mapfiles:\n{}", game, detail, String::from_utf8_lossy(&text).chars().take(2500).collect::<String>(), maps.iter().map(|m| String::from_utf8_lossy(m).chars().take(1500).collect::<String>()).collect::<Vec<_>>().join("\n---\n"))));
+        if f.compile_stage != r.0.compile_stage { return fail("exit-status", format!("compile ended at {} vs {}", f.compile_stage, r.0.compile_stage)); }
+        if f.compile_diags != r.0.compile_diags { return fail("compile-diagnostics", first_diff(f.compile_diags.as_bytes(), r.0.compile_diags.as_bytes())); }
+        if f.bytes != r.0.bytes { return fail("output-file", "the written files differ".into()); }
+        if f.debug_info != r.0.debug_info { return fail("debug-info", first_diff(f.debug_info.clone().unwrap_or_default().as_bytes(), r.0.debug_info.clone().unwrap_or_default().as_bytes())); }
+        for (a, b) in f.decompiled.iter().zip(r.0.decompiled.iter()) {
+            if a.1 != b.1 { return fail("decompiled-text", format!("options {}: {}", a.0, first_diff(a.1.as_bytes(), b.1.as_bytes()))); }
+            if a.2 != b.2 { return fail("decompile-diagnostics", format!("options {}: {}", a.0, first_diff(a.2.as_bytes(), b.2.as_bytes()))); }
+        }
+        return fail("other", "results differ".into());
+    }
+    Outcome::Pass
+}
+
 impl Property for C19 {
     fn id(&self) -> &'static str { "C19" }
     fn rule(&self) -> &'static str {
         "inputs = the generated sources, mutated sources and mutated mapfiles of C04 (most of which produce one or more warnings / errors) and the valid generated sources of C01; each command (compile with --output-debug-info, then decompile of the produced file (with the mapfile, if any)) is run 3 times as a fresh process of the real truth-core binary built from the current tree: exit status, stdout, stderr, output file and debug-info file must be byte-identical across the runs. non-trivial = the command printed at least one diagnostic, or produced an output file that was then decompiled"
     }
     fn tape_len(&self, tier: Tier) -> usize { tier.pick(300, 500) }
-    fn cases(&self, tier: Tier) -> u32 { tier.pick(800, 30_000) }
-    fn required_labels(&self, _tier: Tier) -> Vec<&'static str> { vec!["compile:ok", "compile:failed", "diagnostics:>=2", "decompile-compared", "debug-info-compared", "mapfile", "fmt:anm", "fmt:std", "fmt:msg", "fmt:ecl"] }
+    fn cases(&self, tier: Tier) -> u32 { tier.pick(10_000, 300_000) }
+    fn required_labels(&self, _tier: Tier) -> Vec<&'static str> { vec!["mode:cli", "mode:threads", "threads:hash-seeds-differ", "compile:ok", "compile:failed", "diagnostics:>=2", "decompile-compared", "debug-info-compared", "mapfile", "fmt:anm", "fmt:std", "fmt:msg", "fmt:ecl"] }
     fn max_discard_fraction(&self) -> f64 { 0.05 }
 
     fn generate(&self, tape: &mut Tape, tier: Tier, known: &Known) -> Value {
+        // most cases run in-process on fresh threads (cheap); one in 25 launches the real CLI in fresh processes
+        let mode = if tape.chance(1, 25) { "cli" } else { "threads" };
+        let mut v = self.generate_input(tape, tier, known);
+        v["mode"] = json!(mode);
+        v
+    }
+    fn check(&self, case: &Value, ctx: &mut CheckCtx) -> Outcome { self.check_impl(case, ctx) }
+}
+
+impl C19 {
+    fn generate_input(&self, tape: &mut Tape, tier: Tier, known: &Known) -> Value {
         if tape.chance(1, 3) {
             let fmt = pick_fmt(tape);
             let game = *tape.pick(games_for(fmt));
@@ -73,7 +159,9 @@ impl Property for C19 {
         C04.generate(tape, tier, known)
     }
 
-    fn check(&self, case: &Value, ctx: &mut CheckCtx) -> Outcome {
+    fn check_impl(&self, case: &Value, ctx: &mut CheckCtx) -> Outcome {
+        if case["mode"] == "threads" { return check_threads(case, ctx); }
+        ctx.label("mode:cli");
         let Some(bin) = cli() else { return Outcome::Discard("TV_TRUTH_CORE is not set (the driver builds the CLI and sets it)".into()) };
         let Some((fmt, game, text, maps)) = materialize(case) else { return Outcome::Discard("case cannot be materialised".into()) };
         ctx.label(format!("fmt:{}", fmt.name()));
